@@ -202,3 +202,41 @@ Definition settle (step : state -> event -> state * list action) (s : state) : s
 
 Definition phase_num (p : phase) : Z :=
   match p with Idle => 0 | Locking => 1 | GotLock => 2 | Evaluating => 3 | WaitReconnect => 4 | Unlocking => 5 | Crashed => 6 end.
+
+(* ---- the configuration step: Coordinator.Configure (coordinator.go :145-247), the part that fixes minInterval ----
+   For every module name under "notifier" (Go map iteration: any order):
+       viper.SetDefault(root+".interval", 60)
+       viper.SetDefault(root+".send-interval", viper.GetInt64(root+".interval"))
+       viper.SetDefault(root+".threshold", 2)
+       ...
+       interval := viper.GetInt64(root+".interval");  if interval < nc.minInterval { nc.minInterval = interval }
+   starting from nc.minInterval = math.MaxInt64, and afterwards  MaxInt64 -> 310536000.
+   A module's configuration is the triple of explicitly set values (None = key absent). *)
+Record modcfg := mkMod { mc_interval : option Z; mc_send : option Z; mc_threshold : option Z }.
+
+Definition max_int64 : Z := 9223372036854775807.
+Definition no_module_interval : Z := 310536000.
+Definition default_interval : Z := 60.
+Definition default_threshold : Z := 2.
+
+(* viper.Get* of a key with a default registered: the explicit value if there is one, the default otherwise *)
+Definition viper_get (explicit : option Z) (dflt : Z) : Z := match explicit with Some v => v | None => dflt end.
+
+(* the values the three keys have once the SetDefault calls have run, in the order Configure makes them *)
+Record modeff := mkEff { e_interval : Z; e_send : Z; e_threshold : Z }.
+Definition configure_mod (m : modcfg) : modeff :=
+  let iv := viper_get (mc_interval m) default_interval in
+  mkEff iv (viper_get (mc_send m) iv) (viper_get (mc_threshold m) default_threshold).
+
+Definition eff_interval (m : modcfg) : Z := e_interval (configure_mod m).
+
+Definition configure_fold (acc : Z) (m : modcfg) : Z :=
+  let interval := eff_interval m in if interval <? acc then interval else acc.
+
+Definition configure_min (mods : list modcfg) : Z :=
+  let r := fold_left configure_fold mods max_int64 in
+  if r =? max_int64 then no_module_interval else r.
+
+(* "the shortest configured notifier interval": a value some module has and no module undercuts *)
+Definition shortest (mods : list modcfg) (i : Z) : Prop :=
+  In i (map eff_interval mods) /\ forall m, In m mods -> i <= eff_interval m.
